@@ -504,7 +504,7 @@ pub fn run(ctx: &Ctx) -> i32 {
     acc.notes.insert("deep_families".into(), json!({"families": FAMILIES, "n": ns, "targets": DEEP_TARGETS, "grid_points": grid.len(), "outcomes": deep_outcomes}));
     let _ = raw::raw_doc_count("");
     let meta = Meta {
-        level: "exploration",
+        level: "model_checking",
         rule: "every token string up to the length bound over a 36-token alphabet (indicators, anchors, tags, block scalar headers, document markers, multi-byte characters, BOM and invalid UTF-8 bytes) x 15 targets x 23 (entry point, option vector) combinations, executed in a child process (abort / stack overflow / hang bisected to a single input), every returned error rendered in 6 ways; plus 11 deep / wide families on a grid of sizes, each grid point in its own child on an 8 MiB stack; non-trivial = non-empty input".into(),
         exhaustive: true,
         bounds: json!({"max_tokens": ctx.tier.pick(3, 4), "tokens": TOKENS.len(), "targets": TARGETS, "entry_points": ENTRIES, "option_vectors": OPTION_VECTORS, "combinations_per_input_and_target": combos().len()}),
